@@ -47,6 +47,8 @@ def main(argv=None) -> int:
             cap = getattr(mod, 'CAPS', {}).get(a.tier)
         if cap is None and a.tier == 'quick':
             cap = 1200.0  # safety net only: quick tiers take < 1 min on the unchanged tree; a hit is reported
+        if cap is None and a.tier == 'thorough':
+            cap = 2400.0  # thorough tiers report the cap and what was completed below it (never called exhaustive then)
         return core.run_check(mod, a.tier, seed, a.jobs, cap_s=cap)
     except core.HarnessError as e:
         print(f'HARNESS-ERROR {a.id}: {e}', file=sys.stderr)
